@@ -240,6 +240,34 @@ def random_stream(ctx, count, feats=None, flagsets=None, alphabets=None, per_pat
     return out
 
 
+def capalt_stream(ctx, count, repl="[$1|$2|$3]"):
+    """an alternation all of whose branches are bare capturing groups, followed by a term that can
+    fail, on inputs where an earlier start position gets into one branch and fails and a later one
+    succeeds through another: what a failed attempt leaves in the capture arrays must not show"""
+    rng = random.Random(ctx.seed * 982451653 + 5)
+    out = []
+    while len(out) < count:
+        a, b, c, d = rng.sample("abcdx", 4)
+        g1 = rng.choice([("chr", a), ("q", ("chr", a), 1, None, True)])
+        alt = ("alt", [("grp", g1), ("grp", ("chr", b))] + ([("grp", ("chr", d))] if rng.random() < 0.3 else []))
+        core = rng.choice([("nc", alt), ("q", ("nc", alt), 1, None, True), ("nc", alt)])
+        tail = rng.choice([("chr", c), ("nc", ("alt", [("chr", c), ("grp", ("chr", d))]))])
+        parts = [core, tail]
+        if rng.random() < 0.3:
+            parts.insert(0, ("chr", "x"))
+        ast = ("seq", parts)
+        if rng.random() < 0.2:
+            ast = ("alt", [ast, ("grp", ("chr", d))])
+        pat = gen.pp(ast)
+        pre = "x" if parts[0] == ("chr", "x") else ""
+        inputs = [pre + a + " " + pre + b + c, pre + a * 3 + " " + pre + b + c, pre + b + " " + pre + a + c, a + " " + d,
+                  pre + a + "-" + pre + b + "-" + pre + (d if len(alt[1]) > 2 else b) + c, pre + b + c, ""]
+        for inp in inputs:
+            out.append(("xpath", rng.choice(["", "", "i"]), pat, inp, repl))
+    return out
+
+
+
 # ================================================================ C01
 def slice_C01(ctx):
     rng = ctx.rng
@@ -439,6 +467,8 @@ def slice_C03(ctx):
     for p in hand:
         for inp in gen.all_strings("abc", 3) + ["abcdefghijk", "xay", "xy", "aabb"]:
             tuples.append(("xpath", "", p, inp, "", "hand"))
+    for d, fl, pat, inp, _ in capalt_stream(ctx, ctx.n(1200, 12000)):
+        tuples.append((d, fl, pat, inp, "", "capalt"))
     cases = mk_cases(tuples, "ra")
     code0 = None
     # the replacement asks for every group
@@ -654,33 +684,6 @@ def fixedrep_stream(ctx, count, repl=""):
             parts = [("q", ("grp", x[1]), *x[2:]) if x is q else x for x in ast[1]]
             ast = ("seq", parts)
         pat = gen.pp(ast, "xpath", rng)
-        for inp in inputs:
-            out.append(("xpath", rng.choice(["", "", "i"]), pat, inp, repl))
-    return out
-
-
-def capalt_stream(ctx, count, repl="[$1|$2|$3]"):
-    """an alternation all of whose branches are bare capturing groups, followed by a term that can
-    fail, on inputs where an earlier start position gets into one branch and fails and a later one
-    succeeds through another: what a failed attempt leaves in the capture arrays must not show"""
-    rng = random.Random(ctx.seed * 982451653 + 5)
-    out = []
-    while len(out) < count:
-        a, b, c, d = rng.sample("abcdx", 4)
-        g1 = rng.choice([("chr", a), ("q", ("chr", a), 1, None, True)])
-        alt = ("alt", [("grp", g1), ("grp", ("chr", b))] + ([("grp", ("chr", d))] if rng.random() < 0.3 else []))
-        core = rng.choice([("nc", alt), ("q", ("nc", alt), 1, None, True), ("nc", alt)])
-        tail = rng.choice([("chr", c), ("nc", ("alt", [("chr", c), ("grp", ("chr", d))]))])
-        parts = [core, tail]
-        if rng.random() < 0.3:
-            parts.insert(0, ("chr", "x"))
-        ast = ("seq", parts)
-        if rng.random() < 0.2:
-            ast = ("alt", [ast, ("grp", ("chr", d))])
-        pat = gen.pp(ast)
-        pre = "x" if parts[0] == ("chr", "x") else ""
-        inputs = [pre + a + " " + pre + b + c, pre + a * 3 + " " + pre + b + c, pre + b + " " + pre + a + c, a + " " + d,
-                  pre + a + "-" + pre + b + "-" + pre + (d if len(alt[1]) > 2 else b) + c, pre + b + c, ""]
         for inp in inputs:
             out.append(("xpath", rng.choice(["", "", "i"]), pat, inp, repl))
     return out
